@@ -57,6 +57,8 @@ struct http_ghost {
 	unsigned ncancel;		/* http_request_cancel calls (ghost statement in http.c) */
 	unsigned ndie;			/* die() calls (ghost statement in http.c) */
 	int envfail;			/* an environment call reported (allocation) failure: wait, write, init, connect */
+	int sscanf_k, sscanf_c;		/* what the sscanf model returned / wrote to its third output */
+	int seen1xx;			/* gotheaders took the 1xx restart (ghost statement in http.c); never reset */
 	unsigned nclose;		/* close() calls */
 	int closed_fd;
 	unsigned nconncancel;		/* network_connect_cancel calls */
@@ -72,6 +74,8 @@ struct http_ghost_in {
 	int cb_rv;			/* what the user's callback returns */
 	size_t i, j;			/* ghost indices (G1) */
 	size_t eol;			/* ghost witness: position of an EOL (sgetline's requires) */
+	int check_headers;		/* the callback stub inspects header number hi of the response (C09) */
+	size_t hi;
 };
 extern struct http_ghost_in g_http_in;
 #define g_http_ncb g_http.ncb
@@ -98,21 +102,6 @@ extern struct http_ghost_in g_http_in;
 #define g_http_i g_http_in.i
 #define g_http_j g_http_in.j
 #define g_http_eol g_http_in.eol
-
-/*
- * ghost record of the line structure found by gotheaders' counting pass: ls[k] = start of line k (ls[cnt] = current
- * scan position), ei[r] = index of the line whose EOL is at byte position r.  Written only by ghost statements; read
- * only by loop invariants.  HTTP_HB bounds the header block handled by the gotheaders group (object-size parameter).
- */
-#ifndef HTTP_HB
-#define HTTP_HB 32
-#endif
-#define HTTP_NL (HTTP_HB / 2 + 2)
-struct http_ghost_hdr {
-	size_t ls[HTTP_NL + 1];
-	size_t ei[HTTP_HB + 4];
-};
-extern struct http_ghost_hdr g_hdr;
 
 int http_cb_stub(void *, struct http_response *);
 
